@@ -83,6 +83,35 @@ CLAIMED = {
              "real Builder::init traces equal the generated programs' denotation and pass the same checker.",
         note="tools/rs2v.py translates the init bodies (fail-closed); Oracle/Controller.v + Oracle/InitSpec.v are the specification; virtual time.",
         tech="machine-checked proof in Coq over a translator-regenerated model (vm_compute + forallb_forall) + differential correspondence", ref="DESIGN.md §5 C11"),
+    "C12": dict(
+        text="Coq theorems: the fault model (Model/Fault.v: a faulted call is the fault-free operation sequence of the proved transport models cut "
+             "after the k-th fallible pin / bus operation) is tied to the transports by an annotation-soundness theorem; for every call and every k the "
+             "log ends with the failing operation, the error variant names its source, the driver state (orientation, size, cached MADCTL, sleep flag) "
+             "is unchanged, never a panic; after a fault on the parallel bus the cache invariant of C07 still holds for BOTH physical effects of the "
+             "failed write, so every later trace is latched correctly; SPI needs no recovery (C06 holds for any buffer content); a following clear(c) "
+             "leaves c on the whole panel window (all 8 orientations); generated init programs drop no error. Correspondence = fault enumeration on "
+             "real Display objects over the real transports: every init position (thorough) / sampled (quick), faulted calls followed by a clear "
+             "whose pin-level log is decoded by the reference controller.",
+        note="the electrical effect of a half-finished transfer is outside any executable model (labelled partial): the failing operation is taken as not received; "
+             "hand-written composition of driver and transport models (Model/Fault.v, Corr/L2.v).",
+        tech="machine-checked proof in Coq + fault enumeration by differential correspondence on the real transports", ref="DESIGN.md §5 C12"),
+    "C19": dict(
+        text="Coq theorems about a model of TestImage::draw against an abstract clipping target whose constants and glyph bitmaps are REGENERATED from "
+             "src/test_image.rs on every run: for all 0 <= W,H < 2^31 no arithmetic site panics and every rectangle is valid; for all W,H >= 32 every pixel "
+             "is painted, the outer ring is white and the next ring black, the bar area is red | green | blue in that order with white/black only "
+             "inside the glyph boxes and the marker, and seven explicit witness cells separate the picture from each of its rotated / mirrored images "
+             "(lia over the rectangle arithmetic, not a sweep). Correspondence: the real draw on a draw_iter-only clipping target for all sizes 0..48 "
+             "(thorough 0..96), probes up to 65535 x 33, three colour types, and through a real Display read back from the reference controller.",
+        note="embedded-graphics Rectangle / Size arithmetic modelled from its source incl. debug_assert sites; colour constants' distinctness is exercised, not proved.",
+        tech="machine-checked proof in Coq (lia over saturating rectangle arithmetic) over translator-regenerated constants + differential correspondence", ref="DESIGN.md §5 C19"),
+    "C20": dict(
+        text="Coq theorems: fill_solid / fill_contiguous / clear emit exactly one window set-up when something is visible and none otherwise; with batching "
+             "the number of window set-ups of draw_iter equals the number of blocks <= rows = the greedy decomposition of the in-bounds stream into "
+             "maximal left-to-right runs each cut at the row capacity (exact equality for the row stage, by induction), <= one per in-bounds pixel; "
+             "the generated capacity is >= 2; SPI bursts use exactly pixels/cap + 1 <= bytes/usable + 1 transactions. Correspondence: the capacity is "
+             "MEASURED on a calibration run of the real driver, RAMWR counts compared with the run decomposition computed in Coq; SPI transaction counts.",
+        note="overhead counted in window set-ups and transactions, not time.",
+        tech="machine-checked proof in Coq (induction over streams) + differential correspondence with measured capacity", ref="DESIGN.md §5 C20"),
     "C13": dict(
         text="Coq theorems: over every finite history of Display operations (sleep, wake, all drawing calls with arbitrary arguments, "
              "set_orientation, scroll, tearing) is_sleeping equals the reference controller's sleep state and the last sleep/wake call "
